@@ -139,6 +139,16 @@ impl Ctx {
 
     /// Handle a failure: known finding → count and continue (returns false); otherwise returns true.
     fn is_new(&self, f: &Failure) -> bool {
+        if std::env::var("VH_SURVEY").is_ok() && !f.key.starts_with("harness-") {
+            // development aid: list every distinct failure key instead of stopping at the first
+            let mut r = self.report.lock().unwrap();
+            let n = r.extra.entry("survey".to_string()).or_insert_with(|| json!({}));
+            if n.get(&f.key).is_none() {
+                n[&f.key] = json!(truncate(&f.msg, 300));
+                println!("SURVEY key={} msg={}", f.key, truncate(&f.msg, 300));
+            }
+            return false;
+        }
         if self.known.is_open(&self.prop, &f.key) {
             self.known.hit(&self.prop, &f.key);
             let mut r = self.report.lock().unwrap();
